@@ -94,10 +94,10 @@ def run(rep: common.Report, tier: str, seed: int, replay=None) -> int:
         dict(gamma=0.3, u=5.79, adaptive=False, screening=False, holes=2, terminals=0, smooth=0, shape="ellipse", steps=3, model=False),
         dict(gamma=1.0, u=1.0, adaptive=True, screening=True, holes=1, terminals=2, smooth=0, shape="box", steps=25, model=False),
         dict(gamma=10.0, u=5.79, adaptive=True, screening=False, holes=2, terminals=3, smooth=3, shape="box", steps=80, model=False),
-        # a very small first step (dt_max / dt_init = 1e7, still below the 1/2 * 1e10 of C17_dt_grows_to_max): the step must
+        # a very small first step (dt_max / dt_init = 2e9, just below the 1/2 * 1e10 of C17_dt_grows_to_max): the step must
         # jump to dt_max right after the warm-up window
         dict(gamma=10.0, u=5.79, adaptive=True, screening=False, holes=0, terminals=2, smooth=0, shape="box", steps=20, model=False,
-             ratio=1e7),
+             ratio=2e9),
     ]
     if tier == "thorough":
         plans = plans * 3
